@@ -308,6 +308,18 @@ def Naming.probe (n : Naming) (k : SKey) (short : ShortKey) (ok : Bool) : Naming
   | none => n
   | some s => { n with services := AL.set n.services k (if ok then s.probeValid short else s.markUnhealthy short) }
 
+/-- `NamingActor::diff_grpc_distro_client_data`: another node's digest of its gRPC connections (connection id -> the
+instances it holds) is compared with what this node has recorded for those connections: recorded instances the digest
+does not list are removed (unguarded), listed ones that are missing are returned - the caller asks the sender for them -/
+def Naming.diffClientData (n : Naming) (data : List (String × List IKey)) (now : Int) : Naming × List IKey :=
+  let removeKeys := data.flatMap fun e => match AL.get? n.clientSets e.1 with
+    | some v => v.filter fun ik => !e.2.contains ik
+    | none => []
+  let newItems := data.flatMap fun e => match AL.get? n.clientSets e.1 with
+    | some v => e.2.filter fun ik => !v.contains ik
+    | none => e.2
+  (removeKeys.foldl (fun acc ik => (acc.removeInstance ik.skey ik.short none now).1) n, newItems)
+
 /-- is the recorded instance a persistent one? (a closing connection leaves those alone) -/
 def Naming.isPersistent (n : Naming) (ik : IKey) : Bool :=
   match AL.get? n.services ik.skey with
